@@ -380,6 +380,7 @@ func (ex *Exec) havocHeap(st *State, name string) {
 // havocCall: a call whose effect is unknown.
 func (ex *Exec) havocCall(fr *Frame, callee *ssa.Function, sig *types.Signature, args []Val, wide bool, st *State, k CallCont) {
 	vc := ex.vc
+	st.backForget(args)
 	name := "dynamic"
 	if callee != nil {
 		name = vc.prog.funcName(callee)
@@ -565,6 +566,9 @@ func (ex *Exec) invoke(fr *Frame, site ssa.Instruction, common *ssa.CallCommon, 
 func (ex *Exec) applyContract(fr *Frame, c *FuncContract, callee *ssa.Function, sig *types.Signature, args []Val, site ssa.Instruction, st *State, k CallCont, name string) {
 	vc := ex.vc
 	vc.usedCon[c.Name] = true
+	if !c.Pure {
+		st.backForget(args)
+	}
 	pkg := vc.prog.contracts.pkgOf[c.Name]
 	env := ex.newEnv(st, nil, pkg, fr)
 	env.calleeFn = callee
@@ -944,6 +948,12 @@ func (ex *Exec) builtin(fr *Frame, common *ssa.CallCommon, b *ssa.Builtin, argVa
 		k(st, tv(c), false)
 	case "append":
 		s := ex.toTerm(st, arg(0), args[0].Type())
+		k0 := k
+		back := arg(0).Back
+		k = func(st *State, r Val, p bool) {
+			r.Back = back
+			k0(st, r, p)
+		}
 		if len(args) == 1 {
 			k(st, tv(s), false)
 			return
